@@ -350,10 +350,40 @@ impl LightClientProtocol {
     ) -> Result<bool, Status> {
         let (old_total_difficulty, prev_last_header) = self.storage.get_last_state();
         let new_total_difficulty = new_prove_state.get_last_header().total_difficulty();
+        let mut is_forked_without_reorg_headers = false;
         if new_total_difficulty > old_total_difficulty {
             let reorg_last_headers = new_prove_state.get_reorg_last_headers();
             if reorg_last_headers.is_empty() {
                 let prev_last_header_number: BlockNumber = prev_last_header.raw().number().unpack();
+                // When no more than last-N blocks were required, the request started from one of
+                // the stored last-N headers. If the fork point is that header or a later one, the
+                // server doesn't send any reorg headers, but then the new last-N headers cover the
+                // previous last header: check if it is still on the chain.
+                let prev_last_header_hash = prev_last_header.calc_header_hash();
+                let new_last_headers = new_prove_state.get_last_headers();
+                // (The block#1 is handled below, since there are no stored last-N headers for it.)
+                if prev_last_header_number != 1
+                    && new_last_headers.iter().any(|header| {
+                        header.number() == prev_last_header_number
+                            && header.hash() != prev_last_header_hash
+                    })
+                {
+                    let old_last_headers: HashMap<_, _> =
+                        self.storage.get_last_n_headers().into_iter().collect();
+                    let fork_number = new_last_headers.iter().rev().find_map(|header| {
+                        old_last_headers
+                            .get(&header.number())
+                            .filter(|hash| *hash == &header.hash())
+                            .map(|_| header.number())
+                    });
+                    if let Some(to_number) = fork_number {
+                        self.rollback_to_fork_point(to_number);
+                        is_forked_without_reorg_headers = true;
+                    } else {
+                        warn!("long fork detected");
+                        return Ok(false);
+                    }
+                }
                 // If previous last header is block#1, that means there are no previous last n
                 // headers, so we could NOT distinguish whether the block#1 is a fork block or not.
                 // For safety, just remove the block#1.
@@ -386,23 +416,7 @@ impl LightClientProtocol {
                         .unwrap_or_default()
                 });
                 if let Some(to_number) = fork_number {
-                    debug!("fork to number: {}", to_number);
-                    let mut matched_blocks = self.peers.matched_blocks().write().expect("poisoned");
-                    let mut start_number_opt = None;
-                    while let Some((start_number, _, _)) = self.storage.get_latest_matched_blocks()
-                    {
-                        if start_number > to_number {
-                            debug!("remove matched blocks start from: {}", start_number);
-                            self.storage.remove_matched_blocks(start_number);
-                        } else {
-                            start_number_opt = Some(start_number);
-                            break;
-                        }
-                    }
-                    let rollback_to = start_number_opt.unwrap_or(to_number) + 1;
-                    info!("rollback to block#{}", rollback_to);
-                    self.storage.rollback_to_block(rollback_to);
-                    matched_blocks.clear();
+                    self.rollback_to_fork_point(to_number);
                 } else {
                     warn!("long fork detected");
                     return Ok(false);
@@ -417,7 +431,33 @@ impl LightClientProtocol {
         }
         self.peers()
             .update_prove_state(peer_index, new_prove_state)?;
+        if is_forked_without_reorg_headers {
+            // The same as a prove state which has reorg headers: the block filter hashes of the
+            // previous branch are out-of-date.
+            self.peers().clear_latest_block_filter_hashes(peer_index);
+        }
         Ok(true)
+    }
+
+    // Rollback the storage to the fork point `to_number`: the matched blocks and the filtered
+    // data after that block are removed.
+    fn rollback_to_fork_point(&self, to_number: BlockNumber) {
+        debug!("fork to number: {}", to_number);
+        let mut matched_blocks = self.peers.matched_blocks().write().expect("poisoned");
+        let mut start_number_opt = None;
+        while let Some((start_number, _, _)) = self.storage.get_latest_matched_blocks() {
+            if start_number > to_number {
+                debug!("remove matched blocks start from: {}", start_number);
+                self.storage.remove_matched_blocks(start_number);
+            } else {
+                start_number_opt = Some(start_number);
+                break;
+            }
+        }
+        let rollback_to = start_number_opt.unwrap_or(to_number) + 1;
+        info!("rollback to block#{}", rollback_to);
+        self.storage.rollback_to_block(rollback_to);
+        matched_blocks.clear();
     }
 }
 
